@@ -720,4 +720,14 @@ B('SI-name-dropped', ['C20'], 'frame.py', 'Frame.set_index',
 N('SI-hoist-iloc', ['C20'], 'frame.py', 'Frame.set_index',
   '            index_values = self._blocks._extract_array(column_key=column_iloc)\n            name = column', '            key_pos = column_iloc\n            index_values = self._blocks._extract_array(column_key=key_pos)\n            name = column')
 
+# ---------------------------------------------------------------------------------- option forwarding in other families
+B('FW-fillna-limit-dropped', ['C14'], 'frame.py', 'Frame.fillna_forward',
+  'self._blocks.fillna_forward(limit=limit, axis=axis)', 'self._blocks.fillna_forward(axis=axis)', 'I.same-name-forwarding', 'fillna_forward')
+B('FW-window-step-dropped', ['C13'], 'frame.py', 'Frame._axis_window_items',
+  '                step=step,\n', '', 'I.same-name-forwarding', '_axis_window_items')
+B('FW-window-label-shift-dropped', ['C13'], 'frame.py', 'Frame._axis_window_items',
+  '                label_shift=label_shift,\n', '', 'I.same-name-forwarding', '_axis_window_items')
+B('FW-join-fill-value-dropped', ['C20'], 'frame.py', 'Frame.join_left',
+  '                fill_value=fill_value,\n', '', ('I.same-name-forwarding', 'G8'), 'join_left')
+
 VARIANTS = V
